@@ -54,7 +54,7 @@ var nameKinds = []func(i int) string{
 	func(i int) string { return fmt.Sprintf("00%d", i) },
 	func(i int) string { return fmt.Sprintf("%da", i) },
 	func(i int) string { return fmt.Sprintf("+%d", 50+i) },
-	func(i int) string { return fmt.Sprintf("9223372036854775807%d", i) }, // beyond int64: not a decimal int64
+	func(i int) string { return fmt.Sprintf("9223372036854775807%d", i) },                // beyond int64: not a decimal int64
 	func(i int) string { return fmt.Sprintf("%d", int64(2147483648)+int64(i)) },          // beyond int32
 	func(i int) string { return fmt.Sprintf("-%d", int64(4294967296)+int64(i)) },         // below -2^32
 	func(i int) string { return fmt.Sprintf("%d", int64(9223372036854775807)-int64(i)) }, // top of int64
